@@ -394,6 +394,12 @@ example : outs (step Cfg.expected) (LQ.new .q 0 2)
 example : outs (pstep PriShape.expected) (PQ.new 3) [.push 1 1, .push 2 5, .push 3 1, .push 4 5, .pop, .pop, .pop, .pop] =
     [.ok, .ok, .ok, .full, .val 2, .val 1, .val 3, .nil] := by decide
 
+/-- priorities are compared exactly (`Int`), also more than `MaxInt64` apart: `MaxInt64` pops before `-1` and
+    `1` before `MinInt64` — a `Less` that takes the sign of the wrapped difference `pi - pj` gets both wrong -/
+example : outs (pstep PriShape.expected) (PQ.new 4)
+    [.push 1 (-1), .push 2 9223372036854775807, .push 3 (-9223372036854775808), .push 4 1, .pop, .pop, .pop, .pop] =
+    [.ok, .ok, .ok, .ok, .val 2, .val 4, .val 1, .val 3] := by decide
+
 /-- mutation "AddPriorReq honours the bound": a prior add is refused for capacity -/
 theorem witness_prior_bounded :
     (addPrior { Shape.expected with priorBounded := true } { LQ.new .q 0 1 with req := [1] } 2).2 = .full := by decide
